@@ -340,6 +340,18 @@ func (g *g3) cond() ref.Tok {
 }
 
 var c03Pinned = []string{
+	// a procedure bound twice: the second bind sees the names as they are then
+	"/p { plus } def /p load bind pop /plus /add load def /p load bind pop /plus { mul } def 3 4 p",
+	"/plus { sub } def /p { 3 4 plus } def /p load bind pop /plus /add load def /p load bind pop /plus { mul } def p",
+	"/q { 1 2 w } def 3 { /q load bind pop } repeat /w /add load def /q load bind pop /w { pop } def q",
+	// the same dictionary pushed twice: two entries on the dictionary stack, two ends
+	"/d 3 dict def d begin d begin /x 1 def end x end",
+	"3 dict begin currentdict begin /x 1 def end /y x def end",
+	"/d 2 dict def 1 dict begin d begin d begin d begin end end /z 5 def end z end",
+	// an operator redefined in userdict, met below further dictionaries
+	"/add { sub } def 2 dict begin 1 dict begin 7 3 add end end",
+	"/length 42 def 3 dict begin /x 1 def /p { length } def p end",
+	"/exch { pop } def 1 dict begin { 1 2 exch } exec end",
 	// bind replaces every name whose value is an operator at that moment -
 	// also a name of the program's own that is an alias of an operator
 	"/plus /add load def /f {1 2 plus} bind def /plus {sub} def f",
